@@ -1,3 +1,51 @@
 package main
 
-func selftest() int { return 0 }
+// vcheck selftest: the engine's own regression suite, run by MANIFEST.setup_cmd
+// before any property check. The programs are /verif/harness/verifself/self.go;
+// they go through the same pipeline as the property harnesses (overlay, go/ssa,
+// symbolic execution, solver, native replay and cross-validation).
+//
+//   lang_*  : concrete programs; event log must equal the natively compiled program's
+//   ops_*   : every operator/width on symbolic operands pinned to boundary constants
+//   hold_*  : identities that hold for all values (also decided by the other solvers:
+//             verdicts must be identical - the two-solver diff of DESIGN section 4)
+//   twin_*  : assertions that fail for a rare input: the engine must find the input
+//             and it must fail natively (whole-pipeline vacuity guard)
+
+func init() {
+	lang := func(e string) obligation { return obligation{Pkg: "verifself", Entry: e} }
+	twin := func(e string, expect ...string) obligation {
+		return obligation{Pkg: "verifself", Entry: e, Expect: expect}
+	}
+	reg(&property{
+		ID:       "SELF",
+		SelfTest: true,
+		Obligations: []obligation{
+			lang("H_ST_lang_data"), lang("H_ST_lang_control"), lang("H_ST_lang_iface"), lang("H_ST_lang_conc"), lang("H_ST_lang_numeric"),
+			{Pkg: "verifself", Entry: "H_ST_ops_int64", Witnesses: []string{"ST.ops.int64"}, DiffSolvers: []string{"z3-new", "cvc5"}},
+			{Pkg: "verifself", Entry: "H_ST_ops_float", Solver: "cvc5", Witnesses: []string{"ST.ops.float"}},
+			{Pkg: "verifself", Entry: "H_ST_hold_bits", Witnesses: []string{"ST.hold.bits", "ST.hold.bigshift"}, DiffSolvers: []string{"z3-new", "cvc5"}},
+			{Pkg: "verifself", Entry: "H_ST_hold_div", Witnesses: []string{"ST.hold.div"}, DiffSolvers: []string{"z3-new", "cvc5"}},
+			{Pkg: "verifself", Entry: "H_ST_hold_loop", Witnesses: []string{"ST.hold.loop"}},
+			{Pkg: "verifself", Entry: "H_ST_hold_float", Witnesses: []string{"ST.hold.float"}, DiffSolvers: []string{"cvc5"}},
+			{Pkg: "verifself", Entry: "H_ST_hold_clock", Witnesses: []string{"ST.hold.clock"}},
+			twin("H_ST_twin_arith", "twin.overflow", "twin.mul-sign", "twin.neg-min", "twin.u8-wrap", "twin.midpoint", "twin.unsigned-underflow", "twin.needle"),
+			twin("H_ST_twin_float", "twin.float-absorb"),
+			twin("H_ST_twin_index", "panic.runtime@verifself.H_ST_twin_index"),
+			twin("H_ST_twin_typednil", "panic.runtime@(*verifself.rect).size"),
+			twin("H_ST_twin_divzero", "panic.runtime@verifself.H_ST_twin_divzero"),
+			twin("H_ST_twin_nilmap", "panic.runtime@verifself.H_ST_twin_nilmap"),
+			twin("H_ST_twin_loop", "termination@verifself.spin"),
+			twin("H_ST_twin_clock", "twin.clock-exact"),
+			twin("H_ST_twin_path", "twin.deep-branch"),
+		},
+	})
+}
+
+func selftest(args []string) int {
+	rc := cmdRun(append([]string{"SELF"}, args...))
+	if rc != 0 {
+		return 2
+	}
+	return 0
+}
